@@ -197,7 +197,10 @@ def _mk(sim):
     elif sim == "InElastic":
         coords, connect = patches.star_patch("QUAD4")
         mesh = patches.real_mesh("QUAD4", coords, connect)
-        s = Simulations.InElastic(mesh, Models.InElastic.Behavior(2, Models.Elastic.Isotropic(3, E=3.0, v=0.25)))
+        # a behaviour that really yields under the loads of _bc, so that internal variables exist and evolve
+        IE = Models.InElastic
+        s = Simulations.InElastic(mesh, IE.Behavior(2, Models.Elastic.Isotropic(3, E=3.0, v=0.25), yieldSurface=IE.Yield.VonMises(0.003), hardening=IE.IsotropicHardening.Linear(0.4),
+                                                    kinematic=IE.KinematicHardening.ArmstrongFrederick(0.6, 5.0)))
     else:
         raise ValueError(sim)
     from EasyFEA import SolverType
@@ -211,6 +214,11 @@ def _bc(s, sim, k):
     xmin, xmax = co[:, 0].min(), co[:, 0].max()
     n0 = np.where(np.isclose(co[:, 0], xmin))[0]
     n1 = np.where(np.isclose(co[:, 0], xmax))[0]
+    if sim not in ("Thermal", "Beam") and (len(n0) < 2 or len(n1) < 2):
+        # sheared patches have a single left-most / right-most node: take the left and right quarter so that the loads really strain the patch
+        W = xmax - xmin
+        n0 = np.where(co[:, 0] <= xmin + 0.3 * W)[0]
+        n1 = np.where(co[:, 0] >= xmax - 0.3 * W)[0]
     s.Bc_Init()
     if sim == "Thermal":
         s.add_dirichlet(n0, [0.0], ["t"])
@@ -232,6 +240,11 @@ def _state(s):
         out[f"u:{pt}"] = np.asarray(s._Get_u_n(pt)).copy()
         out[f"v:{pt}"] = np.asarray(s._Get_v_n(pt)).copy()
         out[f"a:{pt}"] = np.asarray(s._Get_a_n(pt)).copy()
+    # committed internal variables of history-dependent materials
+    z = getattr(s, "_InElastic__zOld", None)
+    if isinstance(z, dict):
+        for k, v in z.items():
+            out[f"z:{k}"] = np.asarray(v).copy()
     return out
 
 
@@ -326,6 +339,24 @@ def ob_roundtrip(sim, mode, dynamic):
             if not np.array_equal(got, named[i]):
                 raise Refuted(f"{sim}/{mode}: Result('{name}', iter={i}) differs from the value obtained at save time", cex=dict(history=hist),
                               signature=f"roundtrip:{sim}:result", replay=dict(confirmed=True))
+        # (3b) quasi-static simulations: restoring iteration 0 and applying the load of step 1 again reproduces stored iteration 1 (the restored state -- fields AND internal
+        # variables -- is what the next step starts from), and solving without saving leaves the restored committed variables alone
+        if not dynamic and sim in ("Elastic", "InElastic", "HyperElastic"):
+            s.Set_Iter(0)
+            restored = _state(s)
+            _bc(s, sim, 1)
+            s.Solve()
+            now = _state(s)
+            for key in restored:
+                if key.startswith("z:") and not np.array_equal(restored[key], now[key]):
+                    raise Refuted(f"{sim}/{mode}: after Set_Iter(0), Solve() without Save_Iter changed the restored internal variables {key}", cex=dict(history=hist + ["Set_Iter(0)", "Solve"]),
+                                  signature=f"roundtrip:{sim}:restore:solve_changes_state", replay=dict(confirmed=True))
+            for key in ("u",):
+                kk = [q for q in now if q.startswith(key + ":")][0]
+                e = float(np.abs(now[kk] - saved_state[1][kk]).max() / (np.abs(saved_state[1][kk]).max() + 1e-30))
+                if e > 1e-8:
+                    raise Refuted(f"{sim}/{mode}: replaying the load of step 1 from restored iteration 0 gives a solution differing from stored iteration 1 by {e:.3e} (relative)",
+                                  cex=dict(history=hist + ["Set_Iter(0)", "Solve(load 1)"]), signature=f"roundtrip:{sim}:replay", replay=dict(confirmed=True, rel_err=e))
         # (4) restore an old iteration, solve and save again: the stored iterations 0..2 are still what they were
         s.Set_Iter(0)
         _bc(s, sim, 5)
